@@ -149,3 +149,10 @@ package lexer
 //@   ensures  endmarker:: implies(isEndTok(result), result == l.EOLEOF())
 //@   ensures  atend:: implies(old(l.pos) >= len(l.input) || l.input[old(l.pos)] == 0, isEndTok(result))
 //@   property C16 C08
+
+// EOLEOF (C15): the only place where the lexer's mode is consulted (see the read audit in govc/prop_c15.go).
+//@ func (*Lexer).EOLEOF
+//@   requires l != nil
+//@   pure
+//@   ensures  mode:: result == ite(l.lineMode, token.EOLT, token.EOFT)
+//@   property C15
